@@ -885,6 +885,22 @@ theorem execScript_skip_wins_timeout (tcs : List TC) (outs : List Out)
   | some i =>
     exact ⟨i, by simp [hf], findIdx_spec k outs i hf⟩
 
+/-- since fix 384369f: … and over a shell that was killed -/
+theorem execScript_skip_wins_unknown (tcs : List TC) (outs : List Out)
+    (h : ∃ o ∈ outs, o.status = .code (scriptSkip tcs)) :
+    ∃ i, execScript tcs .unknown outs = some (.skipped i) ∧
+      ∃ o, outs[i]? = some o ∧ o.status = .code (scriptSkip tcs) := by
+  unfold execScript
+  generalize scriptSkip tcs = k at *
+  obtain ⟨o, ho, hs⟩ := h
+  cases hf : outs.findIdx? (fun o => o.status = .code k) with
+  | none =>
+    rw [List.findIdx?_eq_none_iff] at hf
+    have := hf o ho
+    simp [hs] at this
+  | some i =>
+    exact ⟨i, by simp [hf], findIdx_spec k outs i hf⟩
+
 /-- ... and without one the timeout is reported as before -/
 theorem execScript_timeout_no_skip (tcs : List TC) (outs : List Out)
     (h : ∀ o ∈ outs, o.status ≠ .code (scriptSkip tcs)) :
@@ -936,7 +952,17 @@ theorem execScript_skipped_cause (tcs : List TC) (script : Status) (outs : List 
     | none =>
       rw [hf] at h
       simp at h
-  | unknown => simp at h
+  | unknown =>
+    simp only at h
+    cases hf : outs.findIdx? (fun o => o.status = .code k) with
+    | some j =>
+      rw [hf] at h
+      simp at h
+      subst h
+      exact Or.inr (findIdx_spec k outs j hf)
+    | none =>
+      rw [hf] at h
+      simp at h
   | skipped => exact Or.inr (key i h)
   | detached => exact Or.inr (key i h)
 
